@@ -14,13 +14,13 @@ RULE = ("for each generated block a (all nine kinds, with and without gaps, both
 ASSUMPTIONS = ["truthiness of the comparison result is used (np.bool_ is fine); a raising comparison on a same-type pair is a violation",
                "cross-type comparisons are not exercised"]
 REQUIRED = {t: ["oracle:C14.self", "oracle:C14.roundtrip", "oracle:C14.mutated", "oracle:C14.files-equal",
-                "oracle:C14.files-differ"] + [f"c14:{k}:mutated" for k in equality.gen.KINDS]
+                "oracle:C14.files-differ", "oracle:C14.edited-in-place"] + [f"c14:{k}:mutated" for k in equality.gen.KINDS]
             for t in ("quick", "thorough")}
 
 
 def plan(tier, seed):
     if tier == "quick":
-        return [{"kind": "eq-blocks", "shard": s, "n": 450} for s in range(3)] + [{"kind": "eq-files", "n": 60}]
+        return [{"kind": "eq-blocks", "shard": s, "n": 900} for s in range(5)] + [{"kind": "eq-files", "n": 150}]
     return [{"kind": "eq-blocks", "shard": s, "n": 4000} for s in range(14)] + [{"kind": "eq-files", "n": 1500}]
 
 
